@@ -406,3 +406,17 @@ mod tests {
         );
     }
 }
+
+#[cfg(feature = "verif-hooks")]
+impl Array6 {
+    /// Verification hook: (num_zeros, hip, kxq0, kxq1, ooo).
+    pub(super) fn verif_parts(&self) -> (u32, f64, f64, f64, bool) {
+        (
+            self.num_zeros,
+            self.estimator.hip_accum(),
+            self.estimator.kxq0(),
+            self.estimator.kxq1(),
+            self.estimator.is_out_of_order(),
+        )
+    }
+}
